@@ -120,6 +120,8 @@ def is_zero(e, seed=0, points=8):
                 v = -v
             if s.is_integer:
                 v = sp.Integer(rng.randint(1, 9))
+            if s.name.startswith("frac_"):
+                v = sp.Rational(rng.randint(1, 96), 97)      # a fraction in (0, 1)
             if s.name in SMALL:
                 # physical side condition: the electron mass is far below any atomic mass,
                 # so ion masses m - charge*m_e stay positive
